@@ -199,6 +199,10 @@ let handle () =
       (match r.ph with SNorm a -> "n " ^ string_of_int (int_of_nat a) | SDisj l -> "d " ^ ids l | SChoice0 l -> "c " ^ ids l | SCons -> "x") ^ " | " ^
       String.concat " " (List.map (fun (s, a) -> sgs s ^ pa a) r.pb) in
     String.concat " ;; " (List.map (fun r -> show (transform r)) rules)
+  | "ivs" ->
+    (* ivs <n> { <left> <right> } : Model/IntervalSet.of_list *)
+    let xs = list (fun () -> let a = int () in let b = int () in (z_of_int a, z_of_int b)) in
+    String.concat " " (List.map (fun (a, b) -> Printf.sprintf "[%d,%d)" (int_of_z a) (int_of_z b)) (of_list xs))
   | "defaults" ->
     Printf.sprintf "%d %s %s" (int_of_nat default_imin_gen)
       (match default_imax_gen with None -> "-" | Some m -> string_of_int (int_of_nat m))
